@@ -132,7 +132,7 @@ theorem printA1_colonly (cr cc : Int) (r : PRef) (hg : InGrid cr cc r) :
   simp only [List.nil_append]
   generalize (if r.absRow = true then r.row else r.row + cr) = row at *
   generalize (if r.absCol = true then r.column else r.column + cc) = col at *
-  have e1 : ¬ row < 1 := by omega
+  have e1 : ¬ (row < 1 ∨ row > (LAST_ROW : Int)) := by unfold LAST_ROW; omega
   have e2 : (decide (1 ≤ col) && decide (col ≤ ((16384 : Nat) : Int))) = true := by simp; omega
   simp only [e1, if_false, e2, if_true, Bool.false_eq_true, List.append_nil]
 
@@ -146,7 +146,7 @@ theorem printA1_rowonly (cr cc : Int) (r : PRef) (hg : InGrid cr cc r) :
   simp only [List.nil_append]
   generalize (if r.absRow = true then r.row else r.row + cr) = row at *
   generalize (if r.absCol = true then r.column else r.column + cc) = col at *
-  have e1 : ¬ row < 1 := by omega
+  have e1 : ¬ (row < 1 ∨ row > (LAST_ROW : Int)) := by unfold LAST_ROW; omega
   have e2 : (decide (1 ≤ col) && decide (col ≤ ((16384 : Nat) : Int))) = true := by simp; omega
   simp only [e1, if_false, e2, if_true, Bool.false_eq_true, List.nil_append]
   rw [intToDec_nonneg row (by omega)]
